@@ -121,7 +121,7 @@ func encoders(c *simkit.Choices, x *simkit.Ctx) *simkit.Violation {
 		}
 		w.Reset()
 		reusedErr = encode(enc, probe)
-		reusedOut = append([]byte{}, w.Buf...)
+		reusedOut = simkit.Exact(w.Buf)
 	})
 	if pi != nil {
 		return &simkit.Violation{Kind: "panic", Site: "encoder/" + string(f) + pi.Site, Detail: pi.Value + "\n" + pi.Stack, Scenario: sc}
@@ -289,7 +289,7 @@ func parseMethod(c *simkit.Choices, x *simkit.Ctx) *simkit.Violation {
 			}
 			var err error
 			if c.Bool() {
-				err = p.Parse(append([]byte{}, d...))
+				err = p.Parse(simkit.Exact(d))
 			} else {
 				err = p.ParseString(string(d))
 			}
@@ -314,7 +314,7 @@ func parseMethod(c *simkit.Choices, x *simkit.Ctx) *simkit.Violation {
 	}
 	ft := simkit.NewTap(nil)
 	var ferr error
-	if pi := simkit.Guard(func() { ferr = cd.Parse(append([]byte{}, docs[nh]...), ft) }); pi != nil {
+	if pi := simkit.Guard(func() { ferr = cd.Parse(simkit.Exact(docs[nh]), ft) }); pi != nil {
 		return nil
 	}
 	if (ferr == nil) != (perr == nil) {
@@ -359,7 +359,7 @@ func decoders(c *simkit.Choices, x *simkit.Ctx) *simkit.Violation {
 	var err error
 	var v *simkit.Violation
 	pi := simkit.Guard(func() {
-		dec := mk(append([]byte{}, doc.Bytes...), t)
+		dec := mk(simkit.Exact(doc.Bytes), t)
 		for i := 0; i <= nh; i++ {
 			t.Reset()
 			if err = dec.Next(); err != nil {
@@ -377,7 +377,7 @@ func decoders(c *simkit.Choices, x *simkit.Ctx) *simkit.Violation {
 	}
 	ft := simkit.NewTap(nil)
 	var ferr error
-	probe := append([]byte{}, doc.Bytes[doc.Values[nh][0]:]...)
+	probe := simkit.Exact(doc.Bytes[doc.Values[nh][0]:])
 	if pi := simkit.Guard(func() { ferr = mk(probe, ft).Next() }); pi != nil {
 		return nil
 	}
